@@ -8,6 +8,7 @@ import (
 	"fmt"
 	"os"
 	"path/filepath"
+	"strings"
 
 	"github.com/nspcc-dev/neo-go/pkg/core/dao"
 	istorage "github.com/nspcc-dev/neo-go/pkg/core/interop/storage"
@@ -645,7 +646,7 @@ func (r *seqRun) checkSeek(s seekSpec, note string) *sim.Violation {
 		kind, msg = diffSeek(got, full, rng, s.stop, false, cut)
 		if kind == "" && len(drained) > 0 {
 			kind, msg = diffSeek(append(append([]pair{}, got...), drained...), full, rng, 0, true, cut)
-			if kind != "" && kind != "backwards-start-extension" && kind != "cut-omits-key" {
+			if kind != "" && !strings.HasPrefix(kind, "backwards-start-extension") && kind != "cut-omits-key" {
 				kind = "after-cancel-" + kind
 			}
 		}
@@ -654,7 +655,7 @@ func (r *seqRun) checkSeek(s seekSpec, note string) *sim.Violation {
 		return nil
 	}
 	class := "seek"
-	if kind == "backwards-start-extension" || kind == "cut-omits-key" {
+	if strings.HasPrefix(kind, "backwards-start-extension") || kind == "cut-omits-key" {
 		class = "seek-" + kind
 	}
 	sig := class + "/" + kind
